@@ -1,11 +1,12 @@
 """C32 -- CSV import keeps every cell (imports/import_csv.py, import_utils.py, parse_data.get_table_data)."""
+import copy
 import csv
 import io
 import itertools
 import logging
 import os
 
-from harness import core
+from harness import core, csv2v
 
 ID = 'C32'
 TITLE = 'CSV import keeps every cell'
@@ -19,17 +20,26 @@ RULE = ('random text grids of 0-300 rows (small 0-6, medium, around the 100-row 
         'absent/True/False, NUM_ROWS mostly absent; thorough adds every grid of <= 3 rows with <= 2 cells over '
         '{"", "a", "1", " "} under the three header settings. A case is non-trivial when a table with at least '
         'one data row is produced.')
-TRUSTED = ['Model/Csv.v is hand-written; it is compared with imports.import_csv.parse_file on every generated case '
-           '(model evaluated inside Coq with vm_compute on the grid that the importer\'s own csv.reader produced)',
-           'decoding (codecs.open), dialect sniffing and csv.reader are OUTSIDE the model, which starts from the '
-           'grid of string rows; monitored on every case: the rows the importer obtains from csv.reader equal the '
-           'grid that was written with csv.writer on the same explicit dialect',
-           'import_utils._is_numeric (float()/int() of a header cell) is an arbitrary boolean function in the model; '
-           'the theorems hold for every such function; the correspondence supplies its real values per case',
-           'str.strip()/isspace() whitespace set of Model/Csv.v is_space: compared with CPython over all code points '
-           'on every run',
-           'parse_data type detection is not modelled: for str cells every converter test fails and AnyConverter '
-           '(identity) is chosen; monitored on every case (column type "Any", cells are the same str objects\' text)']
+TRUSTED = ['harness/csv2v.py: fail-closed translator (typed Python AST -> Gallina) that REGENERATES coq/gen/Csv_gen.v on every '
+           'run from import_utils.{empty, column_count_modal, _count_nonempty, find_first_non_empty_row, _is_header, '
+           'expand_headers, headers_guess}, parse_data.get_table_data and the statements of '
+           'import_csv._parse_open_file between `rows = list(reader)` and `if not table_data:`; validated on every '
+           'run by evaluating each translated function and the running Python function on the same arguments',
+           'Lib/CsvPrelude.v: meaning of the Python builtins the translated code uses (enumerate, zip, slices, islice, '
+           'max, defaultdict(int), loops with return/break/continue) and of parse_data\'s converter objects on str '
+           'cells (AnyConverter = identity, one column dict per converter; monitored on every case: column type '
+           '"Any", cells are str)',
+           'Proofs/Csv_bridge.v proves against the regenerated text that every translated function equals the '
+           'hand-written Model/Csv.v function (theorems C32_gen_*), so the model is no longer a trusted transcription; '
+           'it is additionally compared with imports.import_csv.parse_file on every generated case',
+           'decoding (open with newline=""), dialect sniffing and csv.reader are OUTSIDE the translated/model part, '
+           'which starts from the grid of string rows; monitored on every case: the rows the importer obtains from '
+           'csv.reader equal the grid that was written with csv.writer on the same explicit dialect; the tail of '
+           '_parse_open_file (export of column_metadata/table_data) is checked structurally by the translator',
+           'import_utils._is_numeric (float()/int() of a header cell) is an arbitrary boolean function; the theorems '
+           'hold for every such function; the correspondence supplies its real values per case',
+           'str.strip()/isspace() whitespace set (Model/Csv.v is_space, strip): compared with CPython over all code '
+           'points on every run']
 ASSUMPTIONS = ['data rows are the rows after the importer\'s own data offset (title rows above the detected header '
                'are its documented heuristic); non-blank is the importer\'s own empty() (not value.strip())',
                'C32_cells_kept (current source, after fix 6b8f366) has no hypotheses; the *_before_fix theorems are '
@@ -394,6 +404,31 @@ Definition rc (c : cell) (r : row) : row := c :: r.  Definition rnil : row := []
 Definition gc (r : row) (g : grid) : grid := r :: g.  Definition gnil : grid := [].
 Definition oc (p : cell * list cell) (l : list (cell * list cell)) : list (cell * list cell) := p :: l.
 Definition onil : list (cell * list cell) := [].
+Definition zl_eqb := list_eqb Z.eqb.
+Definition row_eqb := list_eqb cell_eqb.
+Definition zrow_eqb (p q : Z * row) : bool := Z.eqb (fst p) (fst q) && row_eqb (snd p) (snd q).
+(* the functions translated from the Python source (GristGen.Csv_gen) against the values the running Python
+   functions returned on the same arguments: validates the translator csv2v *)
+Definition aux_ok (isnum : cell -> bool) (g : grid) (o : options) (out : list (cell * list cell))
+    (aux : Z * list Z * (Z * row) * (Z * row) * option (bool * row) * list (cell * bool) *
+           option (Z * Z * list (list cell))) : bool :=
+  let '(modal, cnts, ff, hg, ht, emp, gtd) := aux in
+  let s := firstn 100%nat g in
+  Z.eqb (g_column_count_modal s) modal &&
+  zl_eqb (map g_count_nonempty s) cnts &&
+  zrow_eqb (g_find_first_non_empty_row s) ff &&
+  zrow_eqb (g_headers_guess isnum s) hg &&
+  match ht, s with
+  | None, [] => true
+  | Some (b, eh), h :: t => Bool.eqb (g_is_header isnum h t) b && row_eqb (g_expand_headers h 1 s) eh
+  | _, _ => false
+  end &&
+  forallb (fun p => Bool.eqb (g_empty (fst p)) (snd p)) emp &&
+  match gtd with
+  | None => true
+  | Some (n, nr, cols) => list_eqb row_eqb (map cd_data (g_get_table_data g n nr)) cols
+  end &&
+  (let '(m, d) := g_parse_rows isnum o g in out_eqb (combine (map cd_id m) d) out).
 """
 
 
@@ -404,7 +439,30 @@ def mono(items, cons, nil):
   return out
 
 
-def coq_case(rows, numeric, case, cols):
+def python_aux(rows, case):
+  """What the running Python helper functions return on this grid (arguments are copies)."""
+  from imports import import_utils
+  import parse_data
+  sample = [list(r) for r in rows[:SAMPLE]]
+  aux = {'modal': import_utils.column_count_modal(sample),
+         'counts': [import_utils._count_nonempty(r) for r in sample],
+         'ffner': import_utils.find_first_non_empty_row(sample),
+         'hg': import_utils.headers_guess(sample),
+         'ht': None, 'gtd': None}
+  if sample:
+    aux['ht'] = (import_utils._is_header(sample[0], sample[1:]),
+                 import_utils.expand_headers(sample[0], 1, sample))
+  cells = sorted({c for r in sample[:20] for c in r})[:12]
+  aux['empty'] = [(c, import_utils.empty(c)) for c in cells]
+  if len(rows) <= 40:
+    n = len(rows[len(rows) // 2]) if rows else 0
+    nr = case.get('num_rows') or (len(rows) // 2 if len(rows) % 3 == 0 else 0)
+    cols = parse_data.get_table_data(copy.deepcopy(rows), n, nr)
+    aux['gtd'] = (n, nr, [list(c['data']) for c in cols])
+  return aux
+
+
+def coq_case(rows, numeric, case, cols, aux):
   """One case as a Coq term; distinct cell texts are let-bound once."""
   names = {}
   order = []
@@ -415,19 +473,31 @@ def coq_case(rows, numeric, case, cols):
       order.append(c)
     return names[c]
 
-  g = mono([mono([cell(c) for c in r], 'rc', 'rnil') for r in rows], 'gc', 'gnil')
-  nums = mono([cell(c) for c in numeric], 'rc', 'rnil')
-  out = mono(['(%s, %s)' % (cell(i), mono([cell(c) for c in d], 'rc', 'rnil')) for i, d in cols], 'oc', 'onil')
+  def row(r):
+    return mono([cell(c) for c in r], 'rc', 'rnil')
+
+  g = mono([row(r) for r in rows], 'gc', 'gnil')
+  nums = row(numeric)
+  out = mono(['(%s, %s)' % (cell(i), row(d)) for i, d in cols], 'oc', 'onil')
   o = '{| o_headers := %s; o_num_rows := %s |}' % (core.optlit(case.get('headers'), core.boollit),
                                                     core.zlit(case.get('num_rows') or 0))
+  zrow = lambda p: '(%s, %s)' % (core.zlit(p[0]), row(p[1]))
+  a = '(%s, %s, %s, %s, %s, %s, %s)' % (
+      core.zlit(aux['modal']), core.zlist(aux['counts']), zrow(aux['ffner']), zrow(aux['hg']),
+      'None' if aux['ht'] is None else '(Some (%s, %s))' % (core.boollit(aux['ht'][0]), row(aux['ht'][1])),
+      core.coq_list(['(%s, %s)' % (cell(c), core.boollit(b)) for c, b in aux['empty']]),
+      'None' if aux['gtd'] is None else '(Some (%s, %s, %s))' % (
+          core.zlit(aux['gtd'][0]), core.zlit(aux['gtd'][1]), core.coq_list([row(c) for c in aux['gtd'][2]])))
   lets = ''.join('let %s : cell := %s in ' % (names[c], mono([core.zlit(ord(ch)) for ch in c], 'zc', 'znil'))
                  for c in order)
-  return '(%s(%s, %s, %s, %s))' % (lets, g, nums, o, out)
+  return '(%s(%s, %s, %s, %s, %s))' % (lets, g, nums, o, out, a)
 
 
 # The model of the current source (import_csv = import_csv_gen source_is_repaired, see Model/Csv.v).
-MODEL_FN = 'import_csv'
-CHECK = ('fun c => let \'(g, nums, o, out) := c in out_eqb (erase (%s (isnum_of nums) g o)) out' % MODEL_FN)
+CHECK_MODEL = "fun c => let '(g, nums, o, out, aux) := c in out_eqb (erase (import_csv (isnum_of nums) g o)) out"
+CHECK = ("fun c => let '(g, nums, o, out, aux) := c in out_eqb (erase (import_csv (isnum_of nums) g o)) out && "
+         "aux_ok (isnum_of nums) g o out aux")
+COQ_IMPORTS = ['Grist.Model.Csv', 'Grist.Lib.CsvPrelude', 'GristGen.Csv_gen']
 SPACES = [9, 10, 11, 12, 13, 28, 29, 30, 31, 32, 133, 160, 5760] + list(range(8192, 8203)) + \
          [8232, 8233, 8239, 8287, 12288]
 
@@ -456,9 +526,18 @@ def witness_cases():
   return out
 
 
+def regenerate(ctx):
+  try:
+    text = csv2v.translate_all(core.GRIST)
+  except csv2v.Untranslatable as e:
+    raise core.TieBroken('the CSV importer grid logic is outside the translated subset: %s' % e)
+  os.makedirs(os.path.join(core.COQ, 'gen'), exist_ok=True)
+  core.write_if_changed(os.path.join(core.COQ, 'gen', 'Csv_gen.v'), text)
+
+
 def all_cases(ctx):
   cs = witness_cases() + fixed_cases()
-  for _ in range(ctx.n(350, 15000)):
+  for _ in range(ctx.n(300, 15000)):
     cs.append(gen_case(ctx.rng))
   if ctx.tier == 'thorough':
     cs.extend(exhaustive_cases())
@@ -484,7 +563,7 @@ def correspond(ctx):
     ctx._c32.append((case, res))
     rows = res['rows']
     numeric = sorted({c for r in rows[:SAMPLE] for c in r if import_utils._is_numeric(c)})
-    coq.append(coq_case(rows, numeric, case, res['cols']))
+    coq.append(coq_case(rows, numeric, case, res['cols'], python_aux(rows, case)))
     idx.append(n)
     nrows = len(case['grid'])
     ctx.count((case['grid'], case['headers'], case['num_rows']),
@@ -501,14 +580,25 @@ def correspond(ctx):
     if not res['cols']:
       ctx.bump('no table')
   ctx.log('implementation run on %d cases; evaluating the model in Coq' % len(coq))
-  bad = ctx.run_cases('csv', ['Grist.Model.Csv'], CHECK, coq, shard=ctx.n(48, 400), timeout=900,
-                      extra_defs=EXTRA_DEFS)
-  ctx.log('model evaluated: %d disagreements' % len(bad))
-  for i in bad[:5]:
-    case = cs[idx[i]]
-    ctx.broken('correspondence:Model/Csv.v import_csv differs from imports.import_csv.parse_file',
-               'case %r' % (_replay_of(case),))
+  bad = ctx.run_cases('csv', COQ_IMPORTS, CHECK, coq, shard=ctx.n(48, 400), timeout=900, extra_defs=EXTRA_DEFS)
+  ctx.log('model and translated functions evaluated: %d disagreements' % len(bad))
   if bad:
+    # which of the two differs: the hand-written model, or the functions translated from source by csv2v
+    sub = bad[:40]
+    bad_model = set(ctx.run_cases('csvm', COQ_IMPORTS, CHECK_MODEL, [coq[i] for i in sub], shard=40, timeout=900,
+                                  extra_defs=EXTRA_DEFS))
+    shown = 0
+    for k, i in enumerate(sub):
+      if shown >= 5:
+        break
+      shown += 1
+      case = cs[idx[i]]
+      if k in bad_model:
+        ctx.broken('correspondence:Model/Csv.v import_csv differs from imports.import_csv.parse_file',
+                   'case %r' % (_replay_of(case),))
+      else:
+        ctx.broken('translator:GristGen.Csv_gen (csv2v) differs from the running import_utils/parse_data/import_csv '
+                   'functions', 'case %r' % (_replay_of(case),))
     ctx.extra['correspondence_failures'] = len(bad)
 
 
@@ -584,17 +674,17 @@ def replay(ctx, w):
   return None if r is None else '%s: %s' % r
 
 
-TECHNIQUE = ('Coq proof over a hand-written executable model of the importer (after csv.reader) + differential cases '
-             'against imports.import_csv.parse_file evaluated with vm_compute + the property oracle on the '
-             'implementation output')
-LEVEL_TEXT = ('Kernel-checked theorem C32_cells_kept about the model of _parse_open_file/headers_guess/expand_headers/'
-              'get_table_data/empty-column removal of the current source: for all grids, all header settings, all '
-              'NUM_ROWS and every _is_numeric oracle, columns have one entry per data row and every non-blank cell of '
-              'a data row is at its row and column; plus: columns are in input order and verbatim; cells_kept holds '
-              'exactly when every data row fits the derived width; the source before fix 6b8f366 is refuted (late '
-              'wide row; blank first line) and proved only under the two excluding hypotheses. The model is compared '
-              'with the running importer on generated CSV files on every run.')
-LEVEL_NOTE = ('Trusted: Coq kernel; decoding/sniffing/csv.reader (outside the model, round trip monitored on every '
-              'case); _is_numeric as an arbitrary oracle; hand-written model validated differentially on each run. '
-              'Fixed findings (witnesses stay in the corpus): late wide row and blank first line (6b8f366), Unicode '
-              'line-break characters splitting records in codecs.open (bc800a1).')
+TECHNIQUE = ('Coq proof over functions translated from the importer source on every run (csv2v), bridged by proof to a '
+             'hand-written executable model + differential cases against the running functions and '
+             'imports.import_csv.parse_file evaluated with vm_compute + the property oracle on the implementation output')
+LEVEL_TEXT = ('Kernel-checked theorem C32_cells_kept_generated about the statements of _parse_open_file after csv.reader '
+              'and the import_utils/parse_data helpers AS TRANSLATED FROM SOURCE ON EVERY RUN: for all grids, all header '
+              'settings, all NUM_ROWS and every _is_numeric oracle, the exported columns have one entry per data row, '
+              'stand in input order, and every non-blank cell of a data row is at its row and column. Nine bridging '
+              'theorems (C32_gen_*) equate each translated function with the model function, so a semantic edit of '
+              'the source breaks a proof. Also: exact characterisation (cells kept iff every data row fits the width), '
+              'and the source before fix 6b8f366 refuted / proved only under the two excluding hypotheses.')
+LEVEL_NOTE = ('Trusted: Coq kernel; the csv2v translator and Lib/CsvPrelude.v (validated differentially on every run); '
+              'decoding/sniffing/csv.reader (outside, round trip monitored on every case); _is_numeric as an arbitrary '
+              'oracle; parse_data converter objects on str cells. Fixed findings (witnesses stay in the corpus): late wide '
+              'row and blank first line (6b8f366), Unicode line-break characters splitting records (bc800a1).')
